@@ -366,14 +366,9 @@ func Drive(prop, exe string, scen []Scenario, iters int, methodRe *regexp.Regexp
 			vtrace.M{"scenario": s.Ops, "iterations": iters, "report": o.Report, "racing_methods": o.Methods,
 				"predicted_by_lock_discipline_model": s.Racy, "predicted_pairs": s.Pairs})
 	}
-	if len(unconfirmed) > 0 {
-		n := len(unconfirmed)
-		if n > 5 {
-			unconfirmed = unconfirmed[:5]
-		}
-		vtrace.Drift(prop, fmt.Sprintf("%d scenario(s) the lock-discipline model (code as it was read, with its known deviations) "+
-			"predicts to be racy showed no race on the real code (deviation repaired, or not hit): %v", n, unconfirmed), nil)
-	}
+	// scenarios the lock-discipline model (with the deviations of the code as it was read) predicts racy but that
+	// showed no race: the deviation has been repaired (or was not hit) -- informational only
+	vtrace.Stat("race_predicted_not_observed", len(unconfirmed))
 	vtrace.Stat("scenarios", len(scen))
 	vtrace.Stat("distinct_scenarios", distinct.Len())
 	vtrace.Stat("race_observed", observed)
